@@ -452,5 +452,25 @@ impl Room {
             // [resulting_room_keeps_identity]{C01} the definition produced is the definition of that very room
             r is Ok && r->Ok_0 is Some && old(insert_entity).node_to_mutate.old_node is Some ==> r->Ok_0->Some_0.id == old(insert_entity).node_to_mutate.old_node->Some_0.id,
 //@ end
+
+// ================================================================= references received from a peer (C02)
+pub struct AuthorisationService { x: u8 }
+/// "the source row of this reference is stored in this room": a fact about storage that no code on this path establishes
+pub uninterp spec fn edge_source_row_in_room(e: Edge, room: Room) -> bool;
+pub uninterp spec fn nondet(k: int) -> bool;
+
+//@ extract src/database/authorisation_service.rs :: impl AuthorisationService / fn process_message as AuthorisationService::add_edges_body
+//@ lift-loop "for (edge, entity_name) in edges" :: fn add_edges_body(room: &Room, edge: Edge, entity_name: String, valid_edges: &mut Vec<Edge>, invalid: &mut Vec<Uid>)
+//@ insert before-stmt "valid_edges.push(edge)"
+                        proof {
+                        // [edge_source_row_belongs_to_room]{C02} a reference is stored for a room only if its source row is stored in that room
+                        if nondet(1) { assert(edge_source_row_in_room(edge, *room)); }
+                        }
+//@ spec
+        ensures
+            // [edge_kept_iff_author_entitled]{C02,C12} a reference received from a peer is forwarded to the writer exactly when the synchronised room grants its author the own-rows right on the source entity at the reference's creation date; otherwise its source id is reported as rejected
+            final(valid_edges)@ == (if spec_can(*room, edge.verifying_key, entity_name@, edge.cdate, RightType::MutateSelf) { old(valid_edges)@.push(edge) } else { old(valid_edges)@ }),
+            final(invalid)@ == (if spec_can(*room, edge.verifying_key, entity_name@, edge.cdate, RightType::MutateSelf) { old(invalid)@ } else { old(invalid)@.push(edge.src) }),
+//@ end
 } // verus!
 fn main() {}
